@@ -163,7 +163,8 @@ def gdb_locus(binary, args, stdin_path=None, cwd=None, seconds=4, depth=3, pass_
             if fn in ('uncrustify_file', 'uncrustify_start', 'do_source_file') and i > 0:
                 # the pass, and the function the pass called (skipping list/text helpers): a livelock sits in a loop of that function,
                 # the sampling instant varies only below it
-                callee = next((f for f in reversed(frames[:i - 1]) if not f.startswith(('Chunk::', 'UncText', 'ChunkStack', 'log_', 'operator')) and f not in ('void', 'int', 'bool')), None)
+                callee = next((f for f in reversed(frames[:i - 1]) if not f.startswith(('Chunk::', 'UncText', 'ChunkStack', 'log_', 'operator', '_', 'std::', 'mem', 'str')) and '<' not in f
+                       and f not in ('void', 'int', 'bool', 'malloc', 'free', 'calloc', 'realloc', 'cfree', 'sysmalloc', 'unlink_chunk', 'tcache_get', 'tcache_put')), None)
                 return 'pass ' + frames[i - 1] + (' > ' + callee if callee else '')
         return 'pass ' + (frames[-1] if frames else 'no-frames')
     return ' < '.join(frames[:depth]) or 'no-frames'
